@@ -15,7 +15,7 @@ fn viol(oracle: &'static str, step: usize, detail: String) -> Outcome {
 // C10
 
 pub fn gen_c10(rng: &mut Rng, thorough: bool) -> History {
-    let surf = gen_surface(rng, 33, true, true);
+    let surf = if thorough && rng.chance(1, 12) { gen_surface_big(rng, true) } else { gen_surface(rng, if thorough { 64 } else { 33 }, true, true) };
     let mut em = Emit::new(vec![surf]);
     // swarm: each run has its own mix
     let long = rng.chance(1, if thorough { 3 } else { 8 });
@@ -125,8 +125,8 @@ pub const V14_COVERING_CLIP: u32 = 2;
 pub const V14_IMAGE_AS_FILL: u32 = 4;
 pub const V14_BUGGIFY: u32 = 8;
 
-pub fn gen_c14(rng: &mut Rng, _thorough: bool) -> History {
-    let surf = gen_surface(rng, 33, false, false);
+pub fn gen_c14(rng: &mut Rng, thorough: bool) -> History {
+    let surf = if thorough && rng.chance(1, 12) { gen_surface_big(rng, false) } else { gen_surface(rng, if thorough { 64 } else { 33 }, false, false) };
     let (w, h) = (surf.w, surf.h);
     let mut em = Emit::new(vec![surf]);
     let variant = match rng.below(6) {
@@ -137,7 +137,7 @@ pub fn gen_c14(rng: &mut Rng, _thorough: bool) -> History {
         _ => 1 + rng.below(15) as u32,
     };
     let buggify = if variant & V14_BUGGIFY != 0 { 1 + rng.below(3) as u32 } else { 0 };
-    let n = 1 + rng.usize(8);
+    let n = 1 + rng.usize(if thorough { 16 } else { 8 });
     let blend = if rng.chance(1, 2) { BlendProfile::Destructive } else { BlendProfile::Uniform };
     // The optimised routes are also taken while layers are open (they only look at the clip
     // stack). Layers are opened either plainly or under a clip rect that is popped again before
@@ -290,8 +290,8 @@ pub fn run_c14(h: &History, st: &mut Stats) -> Outcome {
 // ---------------------------------------------------------------------------
 // C11
 
-pub fn gen_c11(rng: &mut Rng, _thorough: bool) -> History {
-    let surf = gen_surface(rng, 33, false, true);
+pub fn gen_c11(rng: &mut Rng, thorough: bool) -> History {
+    let surf = if thorough && rng.chance(1, 12) { gen_surface_big(rng, true) } else { gen_surface(rng, if thorough { 64 } else { 33 }, false, true) };
     let mut em = Emit::new(vec![surf]);
     let mut draw = DrawCfg::general();
     // strokes are compared through the user-space outline, which is exact for polylines only
@@ -302,9 +302,9 @@ pub fn gen_c11(rng: &mut Rng, _thorough: bool) -> History {
     }
     let cfg = SceneCfg {
         min_ops: 3,
-        max_ops: 12,
-        max_clip: 2,
-        max_layer: 1,
+        max_ops: if thorough { 24 } else { 12 },
+        max_clip: if thorough { 3 } else { 2 },
+        max_layer: if thorough { 2 } else { 1 },
         p_clip: 80,
         p_layer: 40,
         p_pop: 80,
